@@ -54,6 +54,17 @@ impl EK {
 }
 
 pub const FAULT_MSG: &str = "verif-injected-fault";
+
+/// The injected error: kind `kind`, payload chosen by `payload` (see `Script::payload`).
+pub fn fault_error(kind: io::ErrorKind, payload: u8) -> io::Error {
+    match payload % 5 {
+        1 => io::Error::new(kind, seq_io::fasta::Error::InvalidStart { line: 3, found: b'x' }),
+        2 => io::Error::new(kind, seq_io::fastq::Error::UnexpectedEnd { pos: seq_io::fastq::ErrorPosition { line: 7, id: Some("inner".to_string()) } }),
+        3 => io::Error::new(kind, io::Error::new(io::ErrorKind::UnexpectedEof, "inner io error")),
+        4 => io::Error::from(kind),
+        _ => io::Error::new(kind, FAULT_MSG),
+    }
+}
 pub const BUDGET_MSG: &str = "verif-step-budget-exceeded";
 
 #[derive(Clone, Debug, PartialEq, Eq, Hash, Serialize, Deserialize, Default)]
@@ -66,6 +77,10 @@ pub struct Script {
     pub fault: Option<(u32, EK)>,
     /// all calls after the fault fail as well
     pub sticky: bool,
+    /// what the injected io::Error carries: 0 = a text message; 1 = a fasta::Error (as a `Read` adaptor built on a
+    /// FASTA reader would produce); 2 = a fastq::Error; 3 = another io::Error; 4 = no payload (from the bare kind)
+    #[serde(default)]
+    pub payload: u8,
 }
 
 #[derive(Clone, Copy, Debug, PartialEq, Eq)]
@@ -133,7 +148,7 @@ impl Source {
             if n as u32 == k || (self.script.sticky && self.fault_fired && n as u32 > k) {
                 self.fault_fired = true;
                 self.log.borrow_mut().faults_fired += 1;
-                return Some(io::Error::new(ek.kind(), FAULT_MSG));
+                return Some(fault_error(ek.kind(), self.script.payload));
             }
         }
         None
